@@ -736,6 +736,8 @@ func runC06(ctx *Ctx, c *xt.T) (*xt.T, Verdict) {
 		return c06RunStore(ctx, c)
 	case 13:
 		return c06RunDecode(c)
+	case 14:
+		return c06RunVolume(ctx, c)
 	}
 	return xt.N(xt.LI(98)), Fail("bad-case", "unknown tag %d", tag)
 }
